@@ -160,7 +160,8 @@ fn run_script(line: &Value, index: u64, args: &Args) -> RunResult {
             break 'steps; // the spec allows nothing after a request that never completes
         }
         // ---- the observation at this quiescent point
-        let obs = observe(&mut rig, &conc, &[], deadline);
+        let queries = !rig.has_live_mute();
+        let obs = observe_with(&mut rig, &conc, &[], deadline, queries);
         let spec = &el["obs"];
         for p in &obs.problems {
             fail("observe:problem".into(), json!(p));
@@ -171,9 +172,9 @@ fn run_script(line: &Value, index: u64, args: &Args) -> RunResult {
             fail(format!("hv:{verb}"), json!({"real": obs.hv, "spec": spec_hv}));
         }
         let mut spec_views: BTreeMap<String, Value> = obj(&spec["workers"]).into_iter().map(|(k, v)| (k, canon(&v))).collect();
-        spec_views.insert("main".into(), canon(&wview_of(&spec["main"])));
-        res.compared += spec_views.len();
-        if obs.views != spec_views {
+        spec_views.insert("main".into(), canon(&spec["mainv"]));
+        res.compared += if queries { spec_views.len() } else { 0 };
+        if queries && obs.views != spec_views {
             let mut keys: Vec<String> = obs.views.keys().chain(spec_views.keys()).cloned().collect();
             keys.sort();
             keys.dedup();
